@@ -146,7 +146,9 @@ def _place_prefix(s):
         raise Unsupported('place: ' + s)
     while rest.startswith('['):
         j = match_paren(rest, 0, '[', ']'); idx = rest[1:j]; rest = rest[j + 1:]
-        p = ('index', p, idx)
+        mc = re.match(r'(-?\d+) of (\d+)$', idx.strip())
+        if mc: p = ('cindex', p, int(mc.group(1)), int(mc.group(2)))       # slice pattern element: `[i of n]` / `[-i of n]` (counted from the end)
+        else: p = ('index', p, idx)
     return p, rest
 
 # ----------------------------------------------------------------------------- values
@@ -328,6 +330,9 @@ class Exec:
         self.static_names = allocs.get('__static_names__', {})
         self.ih = {}; self.world_fields = None
 
+    def fresh_id(self):
+        self._fresh = getattr(self, '_fresh', 0) + 1; return self._fresh
+
     # --- function lookup: unification of the call's types with the impl header read from the source
     def find(self, callee):
         r = self.resolve(callee)
@@ -406,7 +411,7 @@ class Exec:
             if is_expr(r): return st.new_cell(r), ()      # &str / &[u8] are modelled by value
             if r is None or r[0] != 'ref': raise Unsupported('deref of non-ref ' + str(r)[:80])
             return r[1], r[2]
-        if p[0] == 'index':
+        if p[0] in ('index', 'cindex'):
             return st.new_cell(self.read(st, fr, p)), ()      # read-only view of one element
         if p[0] == 'field':
             c, path = self.lval(st, fr, p[1]); return c, path + (('f', p[2]),)
@@ -414,6 +419,19 @@ class Exec:
             c, path = self.lval(st, fr, p[1]); return c, path + (('dc', p[2]),)
         raise Unsupported('place kind ' + p[0])
     def read(self, st, fr, p):
+        if p[0] == 'cindex':
+            base = self.read(st, fr, p[1])
+            while isinstance(base, tuple) and base[0] == 'ref': base = get_path(st.store[base[1]], base[2])
+            elems = base[1] if isinstance(base, tuple) and base[0] in ('array', 'vecstr') else None
+            if elems is None: raise Unsupported('slice pattern over ' + str(base)[:60])
+            i = p[2] if p[2] >= 0 else None
+            if i is None:      # counted from the end: only meaningful when the length is the aggregate's own
+                if base[0] != 'array': raise Unsupported('slice pattern from the end over ' + base[0])
+                i = len(elems) + p[2]
+            if i >= len(elems):
+                if base[0] == 'vecstr': return String('late_part_%d' % self.fresh_id())
+                raise Unsupported('slice pattern index %d beyond %d elements' % (i, len(elems)))
+            return elems[i]
         if p[0] == 'index':
             base = self.read(st, fr, p[1]); i = self.read(st, fr, ('local', p[2]))
             while isinstance(base, tuple) and base[0] == 'ref': base = get_path(st.store[base[1]], base[2])
@@ -498,6 +516,10 @@ class Exec:
         if s.startswith('no_retag '): return self.operand(st, fr, s[9:])
         if s.startswith('const '): return self.const(st, fr, s[6:])
         if re.match(r'[a-z_][\w:]*$', s) and any(f.method == s.split('::')[-1] and not f.impl for f in self.fns): return ('fnitem', s.split('::')[-1])
+        if re.match(r'<.* as .*>::\w+(::<.*>)?$', s) or re.match(r'(?:[a-z_]\w*::)+[a-z_]\w*(::<.*>)?$', s):
+            return ('pathfn', s)       # a function named by path and used as a value (`.map(String::from)`): called through the contract table / its MIR when it is applied
+        m = re.match(r'(?:[a-z_]\w*::)*([A-Z]\w*)(?:::<.*?>)?(?:::([A-Z]\w*))?(?:::<.*>)?$', s)
+        if m: return ('ctor', m.group(1), m.group(2))       # a tuple-struct / enum-variant constructor used as a function value (`.map(Self)`, `.map(Some)`)
         raise Unsupported('operand: ' + s)
 
     INT_RANGE = {'u8': (0, 2**8), 'u16': (0, 2**16), 'u32': (0, 2**32), 'u64': (0, 2**64), 'usize': (0, 2**64), 'u128': (0, 2**128),
@@ -611,6 +633,7 @@ class Exec:
     def length(self, st, v):
         if isinstance(v, tuple) and v[0] == 'ref': v = get_path(st.store[v[1]], v[2])
         if isinstance(v, tuple) and v[0] == 'array': return IntVal(len(v[1]))
+        if isinstance(v, tuple) and v[0] == 'vecstr': return v[2]
         if isinstance(v, tuple) and v[0] == 'bytes_lit': return IntVal(len(v[1]))
         if is_expr(v) and is_seq(v) and not is_string(v) and HOOKS['len']: return HOOKS['len'](st, v)
         if is_expr(v) and (is_seq(v) or is_string(v)): return Length(v)
